@@ -5,7 +5,7 @@ from __future__ import annotations
 import importlib
 import sys
 
-TRANSLATORS: list[str] = []   # module names exposing regenerate() -> list of paths
+TRANSLATORS: list[str] = ["avh.trace"]   # module names exposing regenerate() -> list of paths
 
 
 def regenerate_all():
